@@ -354,6 +354,13 @@ OkC13(m, o) ==
                \* each verifying under the configured credentials
                /\ q.fp # "invalid"
                /\ (m.cfg.mech = "st") => (q.mi # "invalid" /\ q.sha # "invalid")
+               \* long-term: exactly the credential attributes the mechanism requires in its state
+               \* (identity per the cookie's anonymity bit, realm, most recent nonce, the offered and
+               \* the chosen algorithm, the integrity kind) - the deviations K1 / K2 are C08's business
+               /\ (m.cfg.mech = "lt" /\ o.op = "send") =>
+                      LtRequestFaults(m.lt, q) \cap
+                          {"first-request-has-credentials", "user", "realm", "nonce-not-most-recent",
+                           "password-algorithms", "password-algorithms-unexpected", "integrity-kind"} = {}
                /\ (m.cfg.mech = "lt" /\ m.lt.state # "First") =>
                       /\ {6, 30} \cap Range(creds) # {} /\ {20, 21} \subseteq Range(creds)
                       /\ (q.mi # "absent" => Len(q.lt.mi_keys) > 0)
